@@ -251,7 +251,19 @@ var c26ArgPool = []string{"Null", "Int", "Float", "Bool", "Str", "Time", "Dur", 
 	"Union2 Null Bool", "Union2 Null Struct1 x61 Int", "List Any", "Union2 List Int Tuple1 Int"}
 
 func repopLine(name string, ts []string) string {
-	return fmt.Sprintf("repop %s %d %s", hex.EncodeToString([]byte(name)), len(ts), strings.Join(ts, " "))
+	return strings.TrimSpace(fmt.Sprintf("repop %s %d %s", hex.EncodeToString([]byte(name)), len(ts), strings.Join(ts, " ")))
+}
+
+// emitRepop writes the line; argument lists the real typechecker refuses (nothing is transported then) are thinned out
+func emitRepop(g *Gen, w *bufio.Writer, name string, ts []string) {
+	tys := make([]octosql.Type, len(ts))
+	for i := range ts {
+		tys[i], _ = ParseType(strings.Fields(ts[i]))
+	}
+	if safe(func() string { typecheck26(name, tys); return "ok" }) == "panic" && !g.Chance(1, 12) {
+		return
+	}
+	fmt.Fprintln(w, repopLine(name, ts))
 }
 
 func genC26b(g *Gen, tier string, w *bufio.Writer) {
@@ -269,7 +281,7 @@ func genC26b(g *Gen, tier string, w *bufio.Writer) {
 			for i := range ts {
 				ts[i] = EncodeType(d.ArgumentTypes[i])
 			}
-			fmt.Fprintln(w, strings.TrimSpace(repopLine(name, ts)))
+			fmt.Fprintln(w, repopLine(name, ts))
 			for i := range ts {
 				if d.ArgumentTypes[i].TypeID == octosql.TypeIDUnion || d.ArgumentTypes[i].TypeID == octosql.TypeIDAny || d.ArgumentTypes[i].TypeID == octosql.TypeIDNull {
 					continue
@@ -280,22 +292,23 @@ func genC26b(g *Gen, tier string, w *bufio.Writer) {
 			}
 		}
 		// all argument lists of length <= 2 over the pool (TypeFn overloads are found this way), a sample of length 3
-		fmt.Fprintln(w, strings.TrimSpace(repopLine(name, nil)))
+		fmt.Fprintln(w, repopLine(name, nil))
 		for _, a := range c26ArgPool {
-			fmt.Fprintln(w, repopLine(name, []string{a}))
-			if tier == "thorough" || name == "in" || name == "not in" || name == "len" || name == "[]" || name == "=" || name == "<" {
-				for _, b := range c26ArgPool {
-					fmt.Fprintln(w, repopLine(name, []string{a, b}))
-				}
+			emitRepop(g, w, name, []string{a})
+			for _, b := range c26ArgPool {
+				emitRepop(g, w, name, []string{a, b})
 			}
 		}
-		for i := 0; i < 40*scale; i++ {
+		for i := 0; i < 30*scale; i++ {
 			n := 1 + g.Intn(3)
 			ts := make([]string, n)
 			for j := range ts {
-				ts[j] = Pick(g, c26ArgPool)
+				ts[j] = EncodeType(c26RandType(g, 2))
+				if g.Chance(2, 3) {
+					ts[j] = Pick(g, c26ArgPool)
+				}
 			}
-			fmt.Fprintln(w, repopLine(name, ts))
+			emitRepop(g, w, name, ts)
 		}
 	}
 	fmt.Fprintln(w, repopLine("no_such_function", []string{"Int"}))
